@@ -445,17 +445,12 @@ def role_values_closed(m):
 
 
 def snapshot_filter_excludes_ok(m):
-    """get_keys_to_update selects `state != Ok || reclaim`: an Ok entry reaches the writer only when reclaiming"""
-    for b in m.prog.user_bodies():
-        if b.kind == 'closure' and b.locals[0] == 'bool' and 'storage::common' in b.id:
-            for bi, t in b.calls():
-                if callee_decl(t) in ('std::cmp::PartialEq::ne', 'std::cmp::PartialEq::eq'):
-                    for a in t['args']:
-                        for r in origins(b, a):
-                            c = core.const_of(r)
-                            if c and c.get('variant') == 'Ok':
-                                return True, 'the snapshot filter compares the state with ValueStatus::Ok'
-    return False, 'no comparison with ValueStatus::Ok in the snapshot filter'
+    """get_keys_to_update selects `state != Ok || reclaim`: an Ok entry reaches the writer only when reclaiming (closure or loop form)"""
+    from props.C06 import selection_shape
+    shp = selection_shape(m)
+    if shp['found'] and shp['compares_ok']:
+        return True, 'the snapshot selection compares the state with ValueStatus::Ok'
+    return False, 'no comparison with ValueStatus::Ok in the snapshot selection'
 
 
 def missing_db_is_refused(m):
